@@ -23,6 +23,9 @@ class Planted:
 
 KEYWORDS = ['if', 'then', 'else', 'index', 'path', 'query', 'type', 'case', 'default', 'branches', 'input', 'as', 'in', 'from', 'pipeline', 'limit', 'sort', 'text', 'equals', 'value', 'score']
 
+import re as _re_mod
+_EMAIL_SHAPE = _re_mod.compile(r"^[a-zA-Z0-9.!#$%&'*+/=?^_`{|}~-]+@[a-zA-Z0-9](?:[a-zA-Z0-9-]{0,61}[a-zA-Z0-9])?(?:\.[a-zA-Z0-9](?:[a-zA-Z0-9-]{0,61}[a-zA-Z0-9])?)*$")
+
 def variant_string(lr, kind):
     """another member of the same lexical class (never '$'-prefixed; e-mail-shaped iff kind == 'email')"""
     if kind == 'email':
@@ -38,7 +41,8 @@ def variant_string(lr, kind):
     alphabet = 'abc XYZ019"\\/{}[]:,<>&\n\t\u00e9\u4e2d\U0001F600$@.%s'
     s = ''.join(lr.choice(alphabet) for _ in range(n))
     if s.startswith('$'): s = 'x' + s
-    if '@' in s and lr.random() < 0.9: s = s.replace('@', ' at ')   # keep it out of the e-mail class almost always; the class test is re-done below
+    if '@' in s and lr.random() < 0.9: s = s.replace('@', ' at ')   # keep it out of the e-mail class almost always
+    if _EMAIL_SHAPE.match(s) and 3 <= len(s.encode('utf-8')) <= 254: s = s.replace('@', ' at ')      # ... and never INTO it: a generic variant stays generic
     return s
 
 class G:
